@@ -36,13 +36,16 @@ pub struct History {
 }
 
 fn piece_len() -> impl Strategy<Value = usize> {
-    prop_oneof![5 => 0usize..=4, 2 => 5usize..=9, 2 => 10usize..=200, 1 => 200usize..=3000]
+    // incl. exact block sizes (and block size +- the 4-byte tail) an implementation may special-case
+    let blocks = (proptest::sample::select(vec![16usize, 32, 64, 128, 256, 512, 1024, 2048]), proptest::sample::select(vec![0i64, 0, 4, -4, 1, -1]))
+        .prop_map(|(p, d)| (p as i64 + d) as usize);
+    prop_oneof![5 => 0usize..=4, 2 => 5usize..=9, 2 => 10usize..=200, 1 => 200usize..=3000, 1 => blocks]
 }
 
 pub fn history_strategy(v: vmodel::Variant) -> impl Strategy<Value = History> {
     let data = prop_oneof![
         2 => vec(any::<u8>(), 0..=12).prop_map(DataSpec::explicit),
-        5 => gens::data_strategy(v, 3000),
+        5 => gens::data_strategy(v, 6000),
     ];
     let ev = prop_oneof![2 => (0u8..32).prop_map(Ev::Finalize), 1 => Just(Ev::Fork)];
     (data, vec(piece_len(), 0..40), vec((0u8..40, ev), 0..5), vec(vec(piece_len(), 0..30), 2))
